@@ -3,7 +3,7 @@
 One group of shards per process time zone (TZ set with time.tzset() inside the worker before anything is generated):
 UTC, America/Los_Angeles, Australia/Lord_Howe, Asia/Kathmandu.  Inputs: aware datetimes 1700-2240 at microsecond resolution in arbitrary
 fixed offsets (down to seconds) and IANA zones, naive datetimes concentrated around the DST gaps and folds of the process zone (both fold
-values), adjacent-microsecond pairs and exact ties.  Operations: insert, insert_multiple, insert without time, update(time=static aware
+values), adjacent-microsecond pairs and exact ties.  Operations: insert, insert_multiple, late inserts after the first reads (between / before / after the stored instants), insert without time, update(time=static aware
 non-UTC | static naive | callable), reopen; {CSV, memory} x {auto_index on, off}.
 Oracle: the stored/returned time is the expected instant (aware: the same instant; naive: local time of the process zone computed
 independently with zoneinfo), carries UTC tzinfo, keeps its microseconds; get_timestamps() returns the same list on the index path and the
@@ -168,7 +168,21 @@ def cases(draw, tz):
             updates.append(["zone", draw(st.sampled_from(IANA))])
         else:
             updates.append(["naive_local"])
-    return {"tz": tz, "specs": specs, "how": how, "rhs": rhs, "updates": updates, "reopen": draw(st.booleans())}
+    # points inserted after the first round of reads (the index has been rebuilt by then): between, before and after the stored instants
+    late = []
+    for _ in range(draw(st.integers(0, 2))):
+        if draw(st.booleans()):
+            es = sorted(expected_utc(x, tz) for x in specs)
+            a = draw(st.sampled_from(es))
+            b = draw(st.sampled_from(es))
+            mid = min(a, b) + (max(a, b) - min(a, b)) / 2
+            mid = mid.replace(microsecond=mid.microsecond)
+            late.append(as_offset_spec(mid, draw(st.sampled_from([0, 3600, -28800, 20700]))))
+        else:
+            t = draw(tspecs(tz))
+            if in_range(t, tz):
+                late.append(t)
+    return {"tz": tz, "specs": specs, "how": how, "rhs": rhs, "updates": updates, "reopen": draw(st.booleans()), "late": late}
 
 
 def fail(sub, case, msg):
@@ -192,7 +206,7 @@ def check_state(case, real, exp, stage, acc):
         if t.tzinfo is None or t.utcoffset() != timedelta(0):
             fail("not-utc", case, "%s point %d is returned with time %r (tzinfo is not UTC)" % (where, i, t))
         if t != e or t.microsecond != e.microsecond:
-            fail("instant", case, "%s point %d: stored instant %s, expected %s (input %r)" % (where, i, t.isoformat(), e.isoformat(), case["specs"][i] if stage == "after-insert" else "updated"))
+            fail("instant", case, "%s point %d: stored instant %s, expected %s (input %r)" % (where, i, t.isoformat(), e.isoformat(), case["specs"][i] if stage == "after-insert" and i < len(case["specs"]) else "updated/late"))
         if p.tags.get("i") != str(i):
             fail("contents", case, "%s storage order changed" % where)
     acc.ev(len(pts))
@@ -264,6 +278,13 @@ def run_case(case, ctx, acc):
                     fail("insert-raised", case, "[%s TZ=%s] insert raised %r" % (real.name, tz, e))
                 exp = list(exp0)
                 check_state(case, real, exp, "after-insert", acc)
+                for j, ts in enumerate(case.get("late", [])):
+                    try:
+                        db.insert(Point(time=build(ts), measurement="m", tags={"i": str(len(exp))}, fields={"v": len(exp)}))
+                    except Exception as e:
+                        fail("insert-raised", case, "[%s TZ=%s] late insert raised %r" % (real.name, tz, e))
+                    exp.append(expected_utc(ts, tz))
+                    check_state(case, real, exp, "after-late-insert-%d" % j, acc)
                 for u in case["updates"]:
                     try:
                         if u[0] == "static":
